@@ -92,7 +92,11 @@ func (e *Engine) DetachHandler(prefix enc.Name) error {
 	if n == nil {
 		return ndn.ErrInvalidValue{Item: "prefix", Value: prefix}
 	}
-	n.Delete()
+	// Remove only this handler: handlers attached at longer or shorter prefixes stay.
+	n.SetValue(nil)
+	n.DeleteIf(func(h fibEntry) bool {
+		return h == nil
+	})
 	return nil
 }
 
@@ -332,7 +336,11 @@ func (e *Engine) onNack(name enc.Name, reason uint64) {
 			e.log.Fatalf("PIT has empty entry. This should not happen. Please check the implementation.")
 		}
 	}
-	n.Delete()
+	// Remove only the Interests of this name: Interests pending at longer or shorter names stay.
+	n.SetValue(nil)
+	n.DeleteIf(func(lst []*pendInt) bool {
+		return len(lst) == 0
+	})
 }
 
 func (e *Engine) onError(err error) error {
